@@ -79,6 +79,16 @@ func lockFree(path string) bool {
 func makeVariant(dict *vx.Dict, dir string, n int, ln *storeLine) (string, error) {
 	path := vx.Join(dir, fmt.Sprintf("v%d.updog", n))
 	if !ln.File.Exists {
+		// "does not exist" comes in several shapes: plainly missing, a dangling symbolic link (absolute or
+		// relative target), a missing parent directory; none of them may be created by a failed open
+		switch n % 4 {
+		case 1:
+			os.Symlink(path+".target", path)
+		case 2:
+			os.Symlink(fmt.Sprintf("v%d.updog.target", n), path)
+		case 3:
+			path = vx.Join(dir, fmt.Sprintf("nodir%d/v.updog", n))
+		}
 		return path, nil
 	}
 	if !ln.File.Bucket {
@@ -169,6 +179,7 @@ func replayStore(args []string) error {
 			return err
 		}
 		defer os.Remove(path)
+		defer os.Remove(path + ".target")
 		var idx *updog.Index
 		for si, st := range ln.Steps {
 			rep.Steps++
@@ -199,9 +210,14 @@ func replayStore(args []string) error {
 			} else if st.Free && ln.File.Exists && !lockFree(path) {
 				bad = "file-not-released"
 			}
-			_, serr := os.Stat(path)
+			_, serr := os.Stat(path) // follows symbolic links: a created link target counts as existing
 			if (serr == nil) != st.Exists {
 				bad = "existence"
+			}
+			if !ln.File.Exists {
+				if _, terr := os.Stat(path + ".target"); terr == nil {
+					bad = "existence"
+				}
 			}
 			if bad != "" {
 				rep.Mismatch(map[string]any{"kind": "store-" + bad, "file": ln.File, "steps": ln.Steps[:si+1], "got": outcome, "err": fmt.Sprint(oerr), "want": st.Out})
@@ -298,6 +314,8 @@ func (ps *probeSet) run(idx *updog.Index) ([]vx.Res, string) {
 	return out, fmt.Sprint(idx.GetSchema())
 }
 
+var crashHangs int // opens that did not return: recording stops after a few (each costs the watchdog's patience)
+
 // crashOpen opens a surviving file with the real OpenIndex (both modes) and classifies the outcome.
 func crashOpen(path string, ps *probeSet) map[string]any {
 	ev := map[string]any{"ev": "CrashOpen", "same": false}
@@ -308,6 +326,9 @@ func crashOpen(path string, ps *probeSet) map[string]any {
 	outcome := ""
 	same := true
 	for _, mode := range []string{"ondemand", "preload"} {
+		if outcome == "hang" {
+			break // the stuck open still holds the file: the second mode would only wait for it
+		}
 		var idx *updog.Index
 		o, _ := watchdog(20*time.Second, func() error {
 			i, err := vx.Open(path, mode, "none", 0)
@@ -315,6 +336,9 @@ func crashOpen(path string, ps *probeSet) map[string]any {
 			return err
 		})
 		cur := map[string]string{"ok": "opened", "err": "rejected", "panic": "panic", "hang": "hang"}[o]
+		if cur == "hang" {
+			crashHangs++
+		}
 		if cur == "opened" {
 			res, sch := ps.run(idx)
 			for i := range res {
@@ -435,6 +459,9 @@ func recordCrash(args []string) error {
 				os.Remove(s)
 			}
 			os.Remove(path)
+			if crashHangs >= 3 {
+				return w.Close() // the trace already shows the hangs; what follows would only repeat them
+			}
 		}
 	}
 	if *updogBin != "" {
@@ -525,6 +552,9 @@ func killRuns(w *vx.NDWriter, rng *rand.Rand, dir, bin string, kills int) error 
 			w.Emit(project(outp).event("Kill"))
 			w.Emit(crashOpen(outp, ps))
 			os.Remove(outp)
+			if crashHangs >= 3 {
+				return nil
+			}
 		}
 	}
 	return nil
